@@ -5,6 +5,7 @@ import (
 	"encoding/binary"
 	"fmt"
 	"io"
+	"math"
 
 	"go.sia.tech/core/consensus"
 	"go.sia.tech/core/types"
@@ -230,7 +231,12 @@ func (r *RPCSendV2Blocks) decodeResponse(d *types.Decoder) {
 	types.DecodeSliceCast[types.V2Block](d, &r.Blocks)
 	r.Remaining = d.ReadUint64()
 }
-func (r *RPCSendV2Blocks) maxResponseLen() int { return int(r.Max) * 5e6 }
+func (r *RPCSendV2Blocks) maxResponseLen() int {
+	// NOTE: the response carries a length prefix and Remaining even when no
+	// blocks were requested; cap Max so that the product cannot overflow
+	const maxBlocks = (math.MaxInt - 16) / 5000000
+	return 8 + int(min(r.Max, maxBlocks))*5e6 + 8
+}
 
 // RPCSendTransactions requests a subset of a block's transactions.
 type RPCSendTransactions struct {
